@@ -255,6 +255,29 @@ thread_local! {
 }
 static HOOK_INSTALLED: AtomicBool = AtomicBool::new(false);
 
+/// known findings of the property being checked, for sub-checks that run many inner evaluations
+/// per case and must keep searching past a recorded finding (set by `main_with` / the worker)
+static GLOBAL_KNOWN: std::sync::OnceLock<(String, Known)> = std::sync::OnceLock::new();
+
+impl Rec {
+    /// If `key` is a recorded known finding of the current property (and the run is not a strict
+    /// replay), counts it and returns true so that the caller can continue with its next inner case.
+    pub fn tolerate_known(&mut self, key: &str) -> bool {
+        if self.strict {
+            return false;
+        }
+        if let Some((prop, known)) = GLOBAL_KNOWN.get() {
+            if let Some(what) = known.lookup(prop, key) {
+                if !self.known_hits.iter().any(|(k, _)| k == key) {
+                    self.known_hits.push((key.to_string(), what));
+                }
+                return true;
+            }
+        }
+        false
+    }
+}
+
 /// Installs a silent panic hook that records (location, message) per thread.
 pub fn install_panic_hook() {
     if HOOK_INSTALLED.swap(true, Ordering::SeqCst) {
@@ -354,6 +377,8 @@ pub struct Sub {
     pub timeout_ms: u64,
     /// a hang is a violation (properties that state termination) rather than inconclusive
     pub hang_is_violation: bool,
+    /// a worker death (abort / kill) while running a case is a violation (default) or only counted
+    pub crash_is_violation: bool,
     /// run cases on this many threads (0 = all)
     pub threads: usize,
 }
@@ -368,6 +393,7 @@ impl Sub {
             isolated: false,
             timeout_ms: 10_000,
             hang_is_violation: false,
+            crash_is_violation: true,
             threads: 0,
         }
     }
@@ -380,6 +406,7 @@ impl Sub {
             isolated: false,
             timeout_ms: 0,
             hang_is_violation: false,
+            crash_is_violation: true,
             threads: 1,
         }
     }
@@ -387,6 +414,12 @@ impl Sub {
         self.isolated = true;
         self.timeout_ms = timeout_ms;
         self.hang_is_violation = hang_is_violation;
+        self
+    }
+    /// worker deaths are counted (class `worker_died`) instead of reported (for properties that
+    /// leave crashes to another property)
+    pub fn crashes_counted_only(mut self) -> Sub {
+        self.crash_is_violation = false;
         self
     }
     pub fn threads(mut self, n: usize) -> Sub {
@@ -758,6 +791,10 @@ fn run_shard(
         };
         let mut rec = rec;
         let res = match res {
+            Err(fail) if sub.isolated && !sub.crash_is_violation && fail.key.starts_with("abort:") => {
+                rec.class("worker_died");
+                Ok(())
+            },
             Err(fail) => match known.lookup(prop, &fail.key) {
                 Some(what) => {
                     rec.known_hits.push((fail.key.clone(), what));
@@ -852,10 +889,11 @@ pub fn main_with(props: Vec<Prop>) -> ! {
     };
     let prop: &'static Prop = Box::leak(Box::new(prop));
 
+    let known = Known::load(&format!("{}/known_findings.json", opts.verif_dir));
+    let _ = GLOBAL_KNOWN.set((prop.id.to_string(), known.clone()));
     if let Some(sub) = &opts.worker_sub {
         worker::worker_main(prop, sub);
     }
-    let known = Known::load(&format!("{}/known_findings.json", opts.verif_dir));
     let start = Instant::now();
 
     if let Some(path) = &opts.replay {
